@@ -1,5 +1,20 @@
 from props import PROPS
 
+import re as _re
+
+
+def _equal(case, impl, model):
+    """verify: a payload is accepted (then version and checksum are compared) or refused; WHICH of the three refusals (length, version,
+    checksum) is reported — the harness classifies them by the error text — is not part of the property. ldfile/footer: compared exactly
+    (accept/refuse only)."""
+    if impl == model:
+        return True
+    if not case.startswith("verify"):
+        return False
+    norm = lambda s: _re.sub(r"=(length|version|crc|other)\b", "=rej", s)
+    return norm(impl) == norm(model)
+
+
 PROPS["C11"] = {
     "level_text": "Kernel-checked theorems: both in-repo CRC-64 tables (regenerated from the source on every run) equal the bit-by-bit "
                   "Jones/reflected CRC for all 256 indices, hence both digests equal the specification for every byte string, state and chunking; "
@@ -15,6 +30,7 @@ PROPS["C11"] = {
             "target.version, parallel, key_exists: intact, one value byte changed, one checksum byte changed, checksum cut short. "
             "non-trivial = every case except random-noise verify inputs shorter than 10 bytes; distinct by case text",
     "nontrivial": lambda c, i: not (c.startswith("verify") and len(c.split()[1]) < 20),
+    "equal": _equal,
     "trusted": ["external module github.com/cupcake/rdb/crc64 (used by CheckVersionChecksum) is modelled by the bitwise spec and compared on every digest case",
                 "Go: hash.Hash64/io.MultiWriter/encoding/binary semantics"],
     "assumptions": ["value-data/trailer positions only: a substitution in structural bytes of an RDB may end the parse elsewhere"],
